@@ -1,4 +1,4 @@
-import RpcVerif.Lemmas.ConnInv
+import RpcVerif.Lemmas.ConnProps
 /-
   C02 — every call completes exactly once (client connection automaton K, Model/ConnSM.lean).
   The statements quantify over every accepted event sequence: any number of calls of any form,
@@ -35,15 +35,26 @@ theorem C02_signalled_is_final {cfg : Cfg} {tr : List Ev} {s : State} (h : Accep
   have := C02_single_owner h k c hc
   omega
 
+/-- Once completion has been signalled the library never signals it again, nor changes its
+    Error, nor touches its Reply: no step does. -/
+theorem C02_stable_after_completion {cfg : Cfg} {tr : List Ev} {s s' : State} (h : Accepts (init cfg) tr s) (e : Ev)
+    (hs : step s e = some s') (k : Nat) (c : Call) (hc : s.calls k = some c) (hsig : c.signals = 1) :
+    ∃ c', s'.calls k = some c' ∧ c'.signals = 1 ∧ c'.errHist = c.errHist ∧ c'.replyFrom = c.replyFrom ∧ c'.replyWrites = c.replyWrites :=
+  signalled_stable s s' e (invS_accepts h) (auxInv_accepts h) hs k c hc hsig
+
+/-- At least once: when no thread of the library can move and the environment holds no gate,
+    every started call has been signalled exactly once, or is registered and waiting for its
+    response on a live connection — nothing else. -/
+theorem C02_at_least_once {cfg : Cfg} {tr : List Ev} {s : State} (h : Accepts (init cfg) tr s)
+    (hq : Quiescent s) (hg : NoGateHeld s) (k : Nat) (c : Call) (hc : s.calls k = some c) :
+    c.signals = 1 ∨ (pendingTok s k = 1 ∧ s.reader = .waiting ∧ s.msgsClosed = false) :=
+  quiescent_completed s (invS_accepts h) (auxInv_accepts h) hq hg k c hc
+
 /-! Non-vacuity: the history that double-completed a call on the unrepaired tree (write in
     progress, reader error sweeps, write then fails) is an accepted run, and ends with exactly
     one signal and one error. -/
 def d1Trace : List Ev :=
   [.start { k := 1, form := .go, holdW := true }, .sendLock 1, .rerr false, .sweep, .wret 1 false, .sendUnreg 1, .sendFail 1]
-
-def runTrace (s : State) : List Ev → Option State
-  | [] => some s
-  | e :: es => (step s e).bind (runTrace · es)
 
 example : ((runTrace (init ⟨false, false⟩) d1Trace).bind (·.calls 1)).map (fun c => (c.signals, c.errHist)) = some (1, [.rfail]) := by
   decide
